@@ -196,6 +196,7 @@ pub fn dh_case(seed: u64, scn: &Value) -> Value {
             (Err(_), Err(_)) => true,
             _ => false,
         };
+        let mut equiv = true;
         let (symmetric, failed) = match point_kind {
             "random" | "base" => {
                 let (pa, pb) = (pa.unwrap(), if point_kind == "base" { base.to_vec() } else { pb.unwrap() });
@@ -215,14 +216,40 @@ pub fn dh_case(seed: u64, scn: &Value) -> Value {
                 let all_fail = range.clone().all(|i| kestrel_crypto::x25519(&a, &lo[i]).is_err());
                 (true, all_fail)
             }
+            "reduces_mod_p" => {
+                // u = p + j is accepted and means j (RFC 7748 section 5), with the top bit clear or set
+                let mut ok = true;
+                for j in 2u8..=18 {
+                    let mut small = [0u8; 32];
+                    small[0] = j;
+                    let mut big = [0xffu8; 32];
+                    big[0] = 0xed + j;
+                    big[31] = 0x7f;
+                    let mut big_hi = big;
+                    big_hi[31] = 0xff;
+                    let want = kestrel_crypto::x25519(&a, &small).ok();
+                    ok &= want.is_some()
+                        && kestrel_crypto::x25519(&a, &big).ok() == want
+                        && kestrel_crypto::x25519(&a, &big_hi).ok() == want;
+                }
+                equiv = ok;
+                (true, false)
+            }
+            "high_bit_masked" => {
+                let mut u = kestrel_crypto::x25519_derive_public(&b).unwrap();
+                let want = kestrel_crypto::x25519(&a, &u).ok();
+                u[31] |= 0x80;
+                equiv = want.is_some() && kestrel_crypto::x25519(&a, &u).ok() == want;
+                (true, false)
+            }
             x => panic!("point {}", x),
         };
-        (derive_is_base_mult, symmetric, failed)
+        (derive_is_base_mult, symmetric, failed, equiv)
     }));
     match r {
-        Ok((d, s, f)) => json!({"ev":"dh","id":scn.get("id").cloned().unwrap_or(json!("")),"c":c.clone(),"res":"ok","derive_is_base_mult":d,"symmetric":s,
+        Ok((d, s, f, q)) => json!({"ev":"dh","id":scn.get("id").cloned().unwrap_or(json!("")),"c":c.clone(),"res":"ok","derive_is_base_mult":d,"symmetric":s,"equiv":q,
                                 "expect_fail":scn.get("fails").cloned().unwrap_or(json!(false)),"failed":f}),
-        Err(_) => json!({"ev":"dh","id":scn.get("id").cloned().unwrap_or(json!("")),"c":c.clone(),"res":"panic","derive_is_base_mult":false,"symmetric":false,
+        Err(_) => json!({"ev":"dh","id":scn.get("id").cloned().unwrap_or(json!("")),"c":c.clone(),"res":"panic","derive_is_base_mult":false,"symmetric":false,"equiv":false,
                          "expect_fail":scn.get("fails").cloned().unwrap_or(json!(false)),"failed":false}),
     }
 }
